@@ -188,5 +188,5 @@ META = {
             "parallel contexts, kills of blocked actors (a kill of an actor blocked in a barrier segfaults in BarrierAcquisitionImpl::finish - "
             "reported, outside C07). Trusted: Coq kernel, extraction, harness/k1_sync.cpp, checks/k1_common.py (log projection).",
     "technique": "Coq proof (invariant over all op sequences, div/mod arithmetic) + replay correspondence on the real scheduler + verified trace judge",
-    "claimed": False,
+    "claimed": True,
 }
